@@ -95,6 +95,18 @@ type known struct {
 	Fixed []map[string]any `json:"fixed"`
 }
 
+// KnownSigs returns the signatures of the open known findings of a property, so
+// that an engine can keep exploring past them instead of stopping at the first.
+func KnownSigs(property string) map[string]bool {
+	out := map[string]bool{}
+	for _, f := range loadKnown().Findings {
+		if f.Property == property {
+			out[f.Signature] = true
+		}
+	}
+	return out
+}
+
 func loadKnown() *known {
 	k := &known{}
 	b, err := os.ReadFile("/verif/known_findings.json")
@@ -349,6 +361,11 @@ func finish(spec *Spec, tier string, seed int, start time.Time, jobs []Job, resu
 		fmt.Printf("KNOWN-FINDING: property=%s %s [%s]\n", spec.Property, knownHit[s], s)
 	}
 	_ = os.MkdirAll("/verif/replays", 0o755)
+	if old, _ := filepath.Glob(fmt.Sprintf("/verif/replays/%s-*.json", spec.Property)); old != nil {
+		for _, f := range old {
+			_ = os.Remove(f)
+		}
+	}
 	for i, v := range fresh {
 		path := fmt.Sprintf("/verif/replays/%s-%d.json", spec.Property, i)
 		b, _ := json.MarshalIndent(map[string]any{"property": spec.Property, "signature": v.Sig, "message": v.Msg, "job": v.Job, "replay": v.Replay}, "", " ")
